@@ -123,3 +123,62 @@ func TestProp_C18_Ended(t *testing.T) {
 	}
 	sim.MarkCompleted("C18ended", true)
 }
+
+// ---- texts waiting for encryption, and time passing before the session starts (C18, C03) ----
+func queuedLives() []*LifeScript {
+	var out []*LifeScript
+	for _, pol := range []int{sim.PolV3 | sim.PolRequire, sim.PolV2 | sim.PolRequire, sim.PolV2 | sim.PolV3 | sim.PolRequire | sim.PolErrStart} {
+		for who := 0; who < 2; who++ {
+			for k := 1; k <= 3; k++ {
+				for wait := 0; wait < 5; wait++ {
+					for afterEnd := 0; afterEnd < 2; afterEnd++ {
+						var ops []SOp
+						if afterEnd == 1 {
+							// a first session comes and goes before the texts are typed
+							ops = append(ops, SOp{K: "sess", W: 1 - who}, SOp{K: "pp", W: who, L: 5}, SOp{K: "end", W: who}, SOp{K: "flush"}, SOp{K: "end", W: 1 - who}, SOp{K: "flush"})
+						}
+						for i := 0; i < k; i++ {
+							ops = append(ops, SOp{K: "send", W: who, L: 9 + i})
+						}
+						// the peer is slow to answer: the query sits in flight while time passes on one side or both
+						switch wait {
+						case 1:
+							ops = append(ops, SOp{K: "age", W: who})
+						case 2:
+							ops = append(ops, SOp{K: "age", W: 1 - who})
+						case 3:
+							ops = append(ops, SOp{K: "age", W: who}, SOp{K: "age", W: 1 - who}, SOp{K: "age", W: who})
+						case 4:
+							ops = append(ops, SOp{K: "dl", W: who}, SOp{K: "age", W: who}, SOp{K: "dl", W: 1 - who}, SOp{K: "age", W: 1 - who})
+						}
+						ops = append(ops, SOp{K: "flush"}, SOp{K: "send", W: 1 - who, L: 6}, SOp{K: "send", W: who, L: 6}, SOp{K: "flush"})
+						out = append(out, &LifeScript{Cfg: SessCfg{V: 3, SeedA: 44, SeedB: 75, KeyA: 0, KeyB: 3}, PolA: pol, PolB: pol &^ sim.PolRequire, Ops: ops})
+					}
+				}
+			}
+		}
+	}
+	return out
+}
+
+func init() { reg("C18queued", runC18); reg("C03queued", runC03) }
+
+func TestProp_C18_Queued(t *testing.T) {
+	si, sn := sim.Shard()
+	for i, sc := range queuedLives() {
+		if i%sn == si {
+			sim.Judge(t, "C18queued", sc)
+		}
+	}
+	sim.MarkCompleted("C18queued", true)
+}
+
+func TestProp_C03_Queued(t *testing.T) {
+	si, sn := sim.Shard()
+	for i, sc := range queuedLives() {
+		if i%sn == si {
+			sim.Judge(t, "C03queued", sc)
+		}
+	}
+	sim.MarkCompleted("C03queued", true)
+}
